@@ -20,7 +20,7 @@ LEVEL_TEXT = ('Proof: Coq theorem, unbounded in sample count, number of data-typ
               'and any channel count, that decoding an encoded sampled-sound resource yields the header format and exactly '
               'the sample bytes (byte-swapped for 16 bit). The WAV clause is checked by a real wave write/read round trip on '
               'every generated case (the wave module is third-party runtime, partial).')
-LEVEL_NOTE = 'Trusted: Coq kernel, hand-written model + encoder, extraction, harness, Python wave module. No axioms.'
+LEVEL_NOTE = 'Trusted: Coq kernel, hand-written model + encoder, extraction, harness, Python wave module. No axioms. Enc tie: the Coq encoder enc_snd of the theorem is evaluated by coqc on the run\'s structured cases and compared with the harness encoder.'
 TECHNIQUE = 'Coq round-trip proof (layout lemma + induction over sample pairs) + model/implementation correspondence + real WAV round trip'
 
 def enc(c):
